@@ -56,6 +56,58 @@ def activate_facts():
     return under_lock, register_first
 
 
+def funnel_facts():
+    """from the AST of Module.announceUpdate: the expression(s) assigned to `changed` (the comparison the model's `changed`
+    transcribes; the initialisation with a constant is left out) and the tests of the early returns (repeated error, unchanged
+    inside the window), in source order"""
+    import ast
+    import inspect
+    import textwrap
+    from frappy.modulebase import Module
+    tree = ast.parse(textwrap.dedent(inspect.getsource(Module.announceUpdate)))
+    changed = [ast.unparse(n.value) for n in ast.walk(tree) if isinstance(n, ast.Assign)
+               and any(ast.unparse(t) == 'changed' for t in n.targets) and not isinstance(n.value, ast.Constant)]
+    omit = [ast.unparse(n.test) for n in ast.walk(tree) if isinstance(n, ast.If)
+            and any(isinstance(b, ast.Return) for b in n.body)]
+    return changed, omit
+
+
+def fanout_facts():
+    """from the AST of Dispatcher.broadcast_event and of the handlers of `change` / `read` requests:
+    (a) every loop over the listeners has the single statement `<loop variable>.send_reply(msg)` as its body — every
+        selected listener gets the message, whoever it is;
+    (b) the attributes of the dispatcher `broadcast_event` reads (who is selected depends on these only);
+    (c) `handle_change` / `handle_read` do not use their `conn` argument;
+    (d) the attributes of the dispatcher assigned in handle_change, handle_read, _setParameterValue, _getParameterValue"""
+    import ast
+    import inspect
+    import textwrap
+    from frappy.protocol.dispatcher import Dispatcher
+
+    def tree_of(name):
+        return ast.parse(textwrap.dedent(inspect.getsource(getattr(Dispatcher, name))))
+    tree = tree_of('broadcast_event')
+    loops = [n for n in ast.walk(tree) if isinstance(n, ast.For) and 'listeners' in ast.unparse(n.iter)]
+    unconditional = bool(loops) and all(
+        not lp.orelse and len(lp.body) == 1 and isinstance(lp.body[0], ast.Expr)
+        and ast.unparse(lp.body[0].value) == f'{ast.unparse(lp.target)}.send_reply(msg)' for lp in loops)
+    sends = [n for n in ast.walk(tree) if isinstance(n, ast.Call) and ast.unparse(n.func).endswith('send_reply')]
+    all_in_loops = len(sends) == len(loops)
+    reads = sorted({n.attr for n in ast.walk(tree) if isinstance(n, ast.Attribute) and ast.unparse(n.value) == 'self'})
+    uses_conn = []
+    stores = []
+    for name in ('handle_change', 'handle_read', '_setParameterValue', '_getParameterValue'):
+        t = tree_of(name)
+        if any(isinstance(n, ast.Name) and n.id == 'conn' for n in ast.walk(t)):
+            uses_conn.append(name)
+        for n in ast.walk(t):
+            targets = n.targets if isinstance(n, ast.Assign) else [n.target] if isinstance(n, (ast.AugAssign, ast.AnnAssign)) else []
+            for tg in targets:
+                if isinstance(tg, ast.Attribute) and ast.unparse(tg.value) == 'self':
+                    stores.append(f'{name}:{tg.attr}')
+    return unconditional and all_in_loops, reads, uses_conn, stores
+
+
 def generate():
     from frappy.params import Parameter
     from frappy.lib import generalConfig
@@ -68,7 +120,15 @@ def generate():
     caught, after_store, before_notify = callback_facts()
     snap_under_lock, register_first = activate_facts()
     from translate import llist, lbool
+    changed_exprs, omit_tests = funnel_facts()
+    fan_uncond, fan_reads, req_uses_conn, req_stores = fanout_facts()
     return [
+        'def changedExprs : List String := ' + llist(lstr(c) for c in changed_exprs),
+        'def earlyReturnTests : List String := ' + llist(lstr(c) for c in omit_tests),
+        f'def fanoutUnconditional : Bool := {lbool(fan_uncond)}',
+        'def fanoutReads : List String := ' + llist(lstr(c) for c in fan_reads),
+        'def requestHandlersUsingConn : List String := ' + llist(lstr(c) for c in req_uses_conn),
+        'def requestHandlersStores : List String := ' + llist(lstr(c) for c in req_stores),
         'def callbackCaught : List String := ' + llist(lstr(c) for c in caught),
         f'def callbacksAfterStores : Bool := {lbool(after_store)}',
         f'def callbacksBeforeNotify : Bool := {lbool(before_notify)}',
